@@ -60,6 +60,9 @@ def run(chk, facts, tier):
     for fn in soft:
         r = fn.returns()
         ok = False
+        if not fn.body.calls('find'):
+            chk.broke('is_in_white_list no longer uses std::find over the live prefix (hand written search?): idiom not recognised, membership not decided')
+            continue
         if len(r) == 1:
             b = as_binop(ret_value(r[0]))
             if b and b[0] == '!=':
